@@ -132,6 +132,40 @@ def run(ctx):
         th = rng.choice([1, 4])
         pairs.append((Case(recs, t, threads=th, api="file", fmt="fasta", tag="duplicate names"), Case(alt, t, threads=th, api="file", fmt="fasta", tag="duplicate names")))
         ctx.count("duplicate_name_stream")
+    # the records split over two or three input files (merged by the reader), IUPAC codes sprinkled in; second spelling: soft-masked (nucleotides in
+    # lower case, ambiguity codes in upper case -- or the other way round) in some of the files only: the class of the merged set and the gap pattern
+    # must not follow the case
+    for j in range(12 if ctx.quick else 120):
+        kind = rng.choice(["dna", "rna"])
+        recs = gen.family(rng, kind, rng.randint(3, 8), rng.choice([30, 80, 150]), sub=0.12, indel=0.06, spice=False)
+        dens = rng.choice([0.0, 0.04, 0.08, 0.12])
+        recs = [(n_, "".join(ch if rng.random() >= dens else rng.choice("RYKMSW") for ch in q.upper())) for n_, q in recs if q]
+        if len(recs) < 3:
+            continue
+        k1 = rng.choice([1, 1, 2, max(1, len(recs) // 2)])
+        parts = [recs[:k1], recs[k1:]]
+        if len(parts[1]) >= 2 and rng.random() < 0.3:
+            parts = [parts[0], parts[1][:1], parts[1][1:]]
+        style = rng.choice(["soft", "soft", "antisoft", "lower", "random"])
+
+        def spell(q, style=style):
+            if style == "soft":
+                return "".join(ch.lower() if ch in "ACGTUN" else ch for ch in q)
+            if style == "antisoft":
+                return "".join(ch if ch in "ACGTUN" else ch.lower() for ch in q)
+            if style == "lower":
+                return q.lower()
+            return "".join(ch.lower() if rng.random() < 0.5 else ch for ch in q)
+        which = [rng.random() < 0.7 or f_ == len(parts) - 1 for f_ in range(len(parts))]
+        parts_alt = [[(n_, spell(q)) for n_, q in p_] if w_ else p_ for p_, w_ in zip(parts, which)]
+        alt = [r_ for p_ in parts_alt for r_ in p_]
+        if alt == recs:
+            continue
+        t = gen.fit_type(rng.choice([0, 1, 2, 5, 5]), kind, recs)
+        th = rng.choice([1, 4])
+        pairs.append((Case(recs, t, threads=th, api="file", fmt="fasta", infiles=[gen.fasta_text(p_) for p_ in parts], tag="%d files" % len(parts)),
+                      Case(alt, t, threads=th, api="file", fmt="fasta", infiles=[gen.fasta_text(p_) for p_ in parts_alt], tag="%d files, %s" % (len(parts), style))))
+        ctx.count("multi_file_case_pairs")
     sysrun.run_cases(kvh, [c for p in pairs for c in p])
     fails = []
     for a, b in pairs:
